@@ -49,6 +49,9 @@ Defects(m) ==
     \cup {[kind |-> "state_names", v |-> e[2], p |-> e[1], k |-> 0] : e \in m.edges}
     \cup {[kind |-> "cardinality", v |-> e[2], p |-> e[1], k |-> 0] : e \in m.edges}
     \cup {[kind |-> "colsum", v |-> v, p |-> "", k |-> k] : v \in m.nodes, k \in {1, 4, 10}}
+    \* two columns wrong with compensating errors (the table total is unchanged)
+    \cup {[kind |-> "colsum_compensating", v |-> v, p |-> "", k |-> k] :
+              v \in {x \in m.nodes : NColsM(m.cpd[x]) >= 2 /\ m.cpd[x].tab[1][2] >= 10}, k \in {1, 4, 10}}
 
 Inject(m, d) ==
     CASE d.kind = "none" -> m
@@ -60,6 +63,8 @@ Inject(m, d) ==
       [] d.kind = "cardinality" ->   \* the parent gains a probability-zero state that its child does not know
             [m EXCEPT !.cpd[d.p].states[d.p] = Append(m.cpd[d.p].states[d.p], "extra"),
                       !.cpd[d.p].tab = Append(m.cpd[d.p].tab, [j \in 1..NColsM(m.cpd[d.p]) |-> 0])]
+      [] d.kind = "colsum_compensating" ->
+            [m EXCEPT !.cpd[d.v].tab = SetCell(SetCell(m.cpd[d.v].tab, 1, 1, m.cpd[d.v].tab[1][1] + d.k), 1, 2, m.cpd[d.v].tab[1][2] - d.k)]
       [] d.kind = "colsum" -> [m EXCEPT !.cpd[d.v].tab = SetCell(m.cpd[d.v].tab, 1, 1, m.cpd[d.v].tab[1][1] + d.k)]
 
 Init == /\ mi \in 1..Len(Insts)
